@@ -511,6 +511,17 @@ def make_jobs(chain, rng, ctx, full_sweep, total_hint):
     """jobs of one chain: every depth 0..stack+3 once (random leaf/method/via), plus extra random cases"""
     jobs = []
     leaves_plain = [l for l in PLAIN_LEAVES if l in chain.leaves]
+    if full_sweep == "product":
+        # every method x derivation x plain leaf, every catch leaf x derivation; depths: 0, 1, just beyond the stack
+        for d in (0, 1, total_hint + 2):
+            for via in VIAS:
+                for leaf in sorted(set(leaves_plain)):
+                    for m in METHODS:
+                        jobs.append({"leaf": leaf, "method": m, "via": via, "depth": d, "flags": rng.below(64), "reraise": False})
+                for leaf in CATCH_LEAVES:
+                    for rr in (False, True):
+                        jobs.append({"leaf": leaf, "method": "info", "via": via, "depth": d, "flags": rng.below(64), "reraise": rr})
+        return jobs
     depths = list(range(0, total_hint + 4)) if full_sweep else [rng.range(0, total_hint + 3) for _ in range(6)]
     for d in depths:
         r = rng.below(100)
@@ -653,7 +664,8 @@ def run_chain(ctx, env, chain_state, nlinks, in_thread, foreign, full_sweep, lin
             if verbose:
                 print("  " + full)
         # ---- the same case for the Lean model
-        if len(rs) == 1 and lines is not None:
+        if len(rs) == 1 and lines is not None and getattr(rs[0]["time"], "tzinfo", None) is not None \
+                and hasattr(rs[0]["elapsed"], "days"):
             rec = rs[0]
             kind = "c" if is_catch else "m"
             nm = SHAPE_OF[leaf] if is_catch else job["method"]
@@ -866,6 +878,49 @@ def stream_fallback(ctx, env):
         env.lm.get_frame = old
 
 
+WITNESS_SRC = """
+async def block():
+    async with LOG.catch():
+        raise ValueError('boom')
+def drive_block():
+    c = block()
+    try:
+        c.send(None)
+    except StopIteration:
+        pass
+async def agen_raw():
+    yield 1
+    raise ValueError('boom')
+async def loop():
+    async for _ in DEC():
+        pass
+def drive_loop():
+    c = loop()
+    try:
+        c.send(None)
+    except StopIteration:
+        pass
+"""
+
+
+def stream_witnesses(ctx, env):
+    """the model-level witnesses of Props/C17 (async_with_witness) and the async-for shape, as literal programs"""
+    g = {"__name__": "app", "LOG": env.logger}
+    exec(compile(WITNESS_SRC, "app.py", "exec"), g)
+    g["DEC"] = env.logger.catch(g["agen_raw"])
+    for fn, exp, key in (("drive_block", ("app", "block", 3), "C17-async-with-catch-frame"),
+                         ("drive_loop", ("app", "loop", 15), "C17-asyncgen-anext-frame")):
+        n0 = len(env.sink.records)
+        g[fn]()
+        recs = env.sink.records[n0:]
+        del env.sink.records[n0:]
+        ctx.case(("witness", fn), nontrivial=True)
+        obs = [(r["name"], r["function"], r["line"]) for r in recs]
+        if obs != [exp]:
+            report(ctx, "witness %s: record names %r, expected %r" % (fn, obs, exp),
+                   {"stream": "witness", "program": fn, "expected": list(exp), "observed": [list(o) for o in obs]}, key=key)
+
+
 CORPUS_DIR = os.path.join(core.VERIF, "corpus", "C17")
 
 
@@ -884,58 +939,90 @@ def run_corpus(ctx, env, lines, pending_cmp):
                   lines, pending_cmp, only_job=dict(c["job"]))
 
 
+class Corr:
+    """correspondence stream: the Lean model on the same cases, flushed in batches"""
+
+    def __init__(self, ctx):
+        self.ctx, self.lines, self.want, self.err, self.ndis = ctx, [], [], None, 0
+        self.drv = core.Driver(DRIVER)
+
+    def flush(self, force=False):
+        if not self.lines or (len(self.lines) < 15000 and not force):
+            return
+        lines, want = self.lines[:], self.want[:]
+        del self.lines[:], self.want[:]
+        if self.err is not None:
+            return
+        try:
+            out = self.drv.run(lines)
+        except core.DriverError as e:      # remembered; the direct oracle keeps its whole budget
+            self.err = e
+            return
+        ctx = self.ctx
+        for w, o in zip(want, out):
+            ctx.traces_validated += 1
+            if w[0] == "path":
+                _, p, exp = w
+                if o != exp:
+                    ctx.broke("correspondence Frames.basename/stem vs os.path", "path=%r os.path=%s model=%s" % (p, exp, o))
+                continue
+            impl, replay, fkey, already = w
+            if o != impl:
+                self.ndis += 1
+                ctx.stat("disagreements")
+                if self.ndis <= 3:
+                    # the oracle has judged the implementation's record on its own; a disagreement here means the
+                    # model no longer mirrors the code (broken tie), reported as such
+                    ctx.broke("correspondence Frames.logViaMethod/logViaCatch",
+                              "replay=%r\n impl =%s\n model=%s" % (replay, impl, o))
+
+
 def run(ctx):
     env = Env()
-    lines, pending_cmp, cmp_paths = [], [], []
+    corr = Corr(ctx)
     boost = 4 if getattr(ctx, "search_boost", False) else 1
     try:
-        run_corpus(ctx, env, lines, pending_cmp)
-        nchains = ctx.n(700, 30000) * boost
+        stream_witnesses(ctx, env)
+        run_corpus(ctx, env, corr.lines, corr.want)
+        nchains = ctx.n(500, 9000) * boost
         for i in range(nchains):
             crng = ctx.rng.fork("chain%d" % i)
             state = crng.s
             r = ctx.rng.below(100)
             in_thread = r < 12
             foreign = r < 3
-            bad = run_chain(ctx, env, state, None, in_thread, foreign, True, lines, pending_cmp)
+            run_chain(ctx, env, state, None, in_thread, foreign, True, corr.lines, corr.want)
             ctx.stat("chains")
-            if i < 2 and pending_cmp:
-                ctx.sample({"stream": "chain", "chain_state": state, "model_line": lines[-1][:300], "impl": pending_cmp[-1][0][:300]})
+            if i < 2 and corr.want:
+                ctx.sample({"stream": "chain", "chain_state": state, "model_line": corr.lines[-1][:300],
+                            "impl": corr.want[-1][0][:300]})
+            corr.flush()
             if len(ctx.violations) >= 25:
                 break
-        nchain_lines = len(lines)
+        # exhaustive product of entry points on one short chain per thread kind
+        for tag, in_thread in (("product-main", False), ("product-worker", True)):
+            prng = ctx.rng.fork(tag)
+            run_chain(ctx, env, prng.s, 2, in_thread, False, "product", corr.lines, corr.want)
+            corr.flush()
+        ctx.exhaustive = True
+        ctx.note("exhaustive: methods x derivations x leaves x {0, 1, beyond} on one chain in the main and in a worker thread")
         stream_timezone(ctx, env)
         stream_fork(ctx, env, ctx.n(3, 40))
         stream_fallback(ctx, env)
-        stream_paths(ctx, lines, cmp_paths)
+        cmp_paths = []
+        stream_paths(ctx, corr.lines, cmp_paths)
+        corr.want.extend(("path", p, exp) for p, exp in cmp_paths)
+        corr.flush(force=True)
     finally:
         env.close()
-
-    # ---- correspondence: the Lean model on the same cases
-    out = core.Driver(DRIVER).run(lines)
-    ndis = 0
-    for (impl, replay, fkey, already), o in zip(pending_cmp, out[:nchain_lines]):
-        ctx.traces_validated += 1
-        if o != impl:
-            ndis += 1
-            ctx.stat("disagreements")
-            if ndis <= 3:
-                ctx.broke("correspondence Frames.logViaMethod/logViaCatch", "replay=%r\n impl =%s\n model=%s" % (replay, impl, o))
-            if not already:
-                # the oracle accepted the implementation's record, so the model is what deviates from the
-                # property here: this is a broken tie, reported through ctx.broke above, not a failing input
-                pass
-    for (p, want), o in zip(cmp_paths, out[nchain_lines:]):
-        ctx.traces_validated += 1
-        if o != want:
-            ctx.broke("correspondence Frames.basename/stem vs os.path", "path=%r os.path=%s model=%s" % (p, want, o))
-            break
     seen, uniq = set(), []
     for b in ctx.broken:
         if b["name"] not in seen:
             seen.add(b["name"])
             uniq.append(b)
     ctx.broken[:] = uniq
+    if corr.err is not None:
+        raise corr.err
 
 
 def replay(ctx, rep):
@@ -948,13 +1035,16 @@ def replay(ctx, rep):
             bad = run_chain(ctx, env, r["chain_state"], r.get("nlinks"), r.get("in_thread", False), r.get("foreign", False),
                             False, lines, cmp_, only_job=dict(r["job"]), verbose=True)
             if lines:
-                out = core.Driver(DRIVER).run(lines)
-                print("model:         ", out[0])
+                try:
+                    out = core.Driver(DRIVER).run(lines)
+                    print("model:         ", out[0])
+                except core.DriverError as e:
+                    print("model:          unavailable (%s)" % str(e).splitlines()[0])
                 print("implementation:", cmp_[0][0])
             bad = bad or bool(ctx.stats.get("pending_finding:" + str(FINDING_KEY.get(r["job"]["leaf"])), 0))
         else:
             before = len(ctx.violations)
-            {"timezone": lambda: stream_timezone(ctx, env), "fork": lambda: stream_fork(ctx, env, 3),
+            {"witness": lambda: stream_witnesses(ctx, env), "timezone": lambda: stream_timezone(ctx, env), "fork": lambda: stream_fork(ctx, env, 3),
              "fallback": lambda: stream_fallback(ctx, env), "fallback-e2e": lambda: stream_fallback(ctx, env)}[r["stream"]]()
             for v in ctx.violations[before:]:
                 print(v["what"])
